@@ -481,7 +481,7 @@ package message
 //@ func getClassAdFromMessageWithMaxSize (m, maxSize, ctx) (result, err)
 //@   props C13
 //@   requires inv: [typeinv] msgInv(m)
-//@   assigns @msgRead, strmEncrypting, strmSaved, @strmToggle(m.stream)
+//@   assigns @msgRead, strmEncrypting, strmSaved, @strmToggle(m.stream), parseIntCount, parseIntValue, parseIntOK
 //@   ensures inv_kept: msgInv(m)
 //@   ensures ad_on_success: err == nil ==> result != nil
 //@   let P0 = old(rdTotal) - old(viewLen(m))
@@ -500,12 +500,15 @@ package message
 
 //@ func parseAndInsertExpression (ad, exprStr) (err)
 //@   props C13 C08
-//@   assigns nothing
+//@   assigns parseIntCount, parseIntValue, parseIntOK
 //@   ensures rejects_empty: [C13] err == nil ==> len(exprStr) >= 1
 
 //@ func tryInsertLiteral (ad, attr, valueStr) (err)
 //@   props C13 C08
-//@   assigns nothing
+//@   assigns parseIntCount, parseIntValue, parseIntOK
+//@   callcount [C08] closed_set_of_shortcuts: 5 ClassAd).Set
+//@   assert before call ClassAd).Set #5 string_shortcut_only_for_a_lone_literal: [C08] len(trimmed) >= 2 && trimmed[0] == 34 && trimmed[len(trimmed) - 1] == 34 && !ContainsAny(unquoted, "\\\"")
+//@   assert before call ClassAd).Set #3 integer_shortcut_is_a_full_parse: [C08] parseIntOK && parseIntCount == old(parseIntCount) + 1
 
 //@ func decodeOldClassAdString (inner) (result, ok)
 //@   props C13 C08
